@@ -286,6 +286,88 @@ def r10_network_calls_keep_their_graph(repo: Repo, rep):
         rep.check(R, not bad, fi.site(), fi.fq, "networks are evaluated with gradient recording on", f"without recording: {bad[:3]}", f"{bad[:3]}")
 
 
+def r11_branch_input_layout(repo: Repo, rep):
+    R = rep.rule("R-C09-11", "branch input layout: a branch has one input neuron per sensor and per component of the function VALUES (len(sampler) * function_space.output_space.dim); the "
+                 "convolutional branch hands (functions, components, sensors) to its conv net by TRANSPOSING (functions, sensors, components); fix_input never guesses a layout from sizes", floor=3,
+                 why="reshape(n, C, L) of an (n, L, C) batch interleaves sensors and components; the domain dimension instead of the value dimension merges or splits input functions; "
+                     "a transposition taken when shape[0] happens to equal the value dimension makes the callable path disagree with the tensor / Points / function-set paths")
+    from ..absdom.axes import AxesEval, NotAxes, Scrambled
+    from ..absdom.poly import RF, NotPoly, to_rf
+    from ..util import deref, single_defs
+    bn = repo.cls(f"{DO}.branchnets.BranchNet")
+    init = bn.methods.get("__init__")
+    if init is None:
+        raise AnalysisError("BranchNet.__init__ vanished")
+    rep.saw(init)
+    tmp = single_defs(init.node)
+    for a in ast.walk(init.node):
+        if isinstance(a, ast.Assign) and any(dump(t) == "self.input_dim" for t in a.targets):
+            def atom(n):
+                t = dump(n)
+                if t in ("len(self.discretization_sampler)", "len(discretization_sampler)"):
+                    return RF.atom("N")
+                if isinstance(n, ast.Attribute) and t.endswith("function_space.output_space.dim"):
+                    return RF.atom("VALUES")
+                if isinstance(n, ast.Attribute) and t.endswith("function_space.input_space.dim"):
+                    return RF.atom("DOMAIN")
+                return None
+            try:
+                got = to_rf(deref(a.value, tmp), atom)
+                rep.check(R, got == RF.atom("N") * RF.atom("VALUES"), init.site(a), init.fq, "input_dim = number of sensors * dimension of the function values", repr(got), repr(got))
+            except NotPoly as err:
+                rep.undecided(R, init.site(a), init.fq, "input_dim evaluable", str(err)[:80])
+    # the convolutional branch
+    for ci in repo.subclasses(bn, strict=True):
+        fw = ci.methods.get("forward")
+        if fw is None or not any(isinstance(c, ast.Call) and dump(c.func) == "self.conv_net" for c in ast.walk(fw.node)):
+            continue
+        rep.saw(fw)
+        pname = fw.params[1]
+        shapes = {}  # local size names unpacked from <batch>.shape
+        for a in ast.walk(fw.node):
+            if isinstance(a, ast.Assign) and isinstance(a.targets[0], (ast.Tuple, ast.List)) and isinstance(a.value, ast.Attribute) and a.value.attr == "shape":
+                for k, t in enumerate(a.targets[0].elts):
+                    if isinstance(t, ast.Name) and k < 3:
+                        shapes[t.id] = ("F", "L", "C")[k]
+
+        def atom_ax(n, pname=pname):
+            if isinstance(n, ast.Name) and n.id == pname:
+                return [("F",), ("L",), ("C",)]
+            return None
+
+        def size_role(n, e, shapes=shapes):
+            if isinstance(n, ast.Name):
+                return shapes.get(n.id)
+            return None
+        body = deref(fw.node, {k: v for k, v in single_defs(fw.node).items() if k != pname})
+        for c in ast.walk(body):
+            if isinstance(c, ast.Call) and dump(c.func) == "self.conv_net" and c.args:
+                arg = c.args[0]
+                # the batch name is re-bound to its raw tensor first: same axes
+                try:
+                    axes = AxesEval(atom_ax, size_role).ev(arg)
+                    rep.check(R, axes == [("F",), ("C",), ("L",)], fw.site(c), fw.fq, "the conv net receives (functions, components, sensors): axes 1 and 2 of the batch exchanged", f"axes {axes}", f"conv input axes {axes}")
+                except Scrambled as err:
+                    rep.violation(R, fw.site(c), fw.fq, "the conv net receives (functions, components, sensors): axes 1 and 2 of the batch exchanged", str(err)[:200], "conv input scrambled")
+                except NotAxes as err:
+                    rep.undecided(R, fw.site(c), fw.fq, "conv input layout evaluable", str(err)[:100])
+    # fix_input: no layout decided from a coincidence of sizes
+    for ci in [bn] + repo.subclasses(bn, strict=True):
+        fx = ci.methods.get("fix_input")
+        if fx is None:
+            continue
+        rep.saw(fx)
+        bad = []
+        for n in ast.walk(fx.node):
+            if isinstance(n, (ast.If, ast.IfExp)) and any(isinstance(x, ast.Attribute) and x.attr == "shape" for x in ast.walk(n.test)):
+                blk = n.body if isinstance(n, ast.If) else [n.body]
+                moves = [dump(x)[:40] for b in blk for x in ast.walk(b)
+                         if (isinstance(x, ast.Attribute) and x.attr in ("T", "mT")) or (isinstance(x, ast.Call) and isinstance(x.func, ast.Attribute) and x.func.attr in ("transpose", "permute", "t", "swapaxes", "movedim"))]
+                if moves:
+                    bad.append(f"if {dump(n.test)[:50]}: {moves[0]}")
+        rep.check(R, not bad, fx.site(), fx.fq, "the discretised input is used in the layout it was given in", str(bad[:1]), str(bad[:1]))
+
+
 def r4_branch_cache(repo: Repo, rep):
     R = rep.rule("R-C09-4", "branch cache protocol: current_out is written by branch forwards only; every way of fixing the branch input ends in the branch call on Points of "
                  "input_space.output_space; function sets sample their parameters before being discretised; _forward_branch recomputes iff the iteration number changed",
@@ -673,6 +755,7 @@ def r9_collection_batch(repo: Repo, rep):
 
 
 def run(repo: Repo, rep):
+    r11_branch_input_layout(repo, rep)
     r10_network_calls_keep_their_graph(repo, rep)
     r8_no_inplace_state(repo, rep)
     r9_collection_batch(repo, rep)
